@@ -159,6 +159,22 @@ def run(p, report, tier):
                         txt = ast.unparse(t)
                         if isinstance(n.target, ast.Name) and res and f"{res}[:{n.target.id}]" in txt.replace(" ", ""):
                             rowmask = True
+    # vectorised idiom: rows, prev = np.tril_indices(n, k=-1); U[rows, picks[prev]] = nan
+    tril = {}
+    for n in ast.walk(sb.node):
+        if isinstance(n, ast.Assign) and isinstance(n.value, ast.Call) and c01.callname(n.value) == "tril_indices" \
+                and any(k.arg == "k" and ast.unparse(k.value) == "-1" for k in n.value.keywords) \
+                and isinstance(n.targets[0], ast.Tuple) and len(n.targets[0].elts) == 2 \
+                and all(isinstance(e, ast.Name) for e in n.targets[0].elts):
+            tril[n.targets[0].elts[0].id] = n.targets[0].elts[1].id
+    for m in ast.walk(sb.node):
+        if isinstance(m, ast.Assign) and c01.is_nan_expr(m.value) and m.lineno > ch.lineno and res:
+            for t in m.targets:
+                if isinstance(t, ast.Subscript) and isinstance(t.slice, ast.Tuple) and len(t.slice.elts) == 2 \
+                        and isinstance(t.slice.elts[0], ast.Name) and t.slice.elts[0].id in tril:
+                    second = ast.unparse(t.slice.elts[1]).replace(" ", "")
+                    if second == f"{res}[{tril[t.slice.elts[0].id]}]":
+                        rowmask = True
     report.add("R18.3", "simple_batch", "row i masks the picks of steps < i", f"{sb.file}:{ch.lineno}", rowmask,
                detail=f"picks in `{res}`")
     # --- definite assignment
